@@ -26,6 +26,8 @@ Trees == Level1 \cup Objs(Pick) \cup Arrs(Pick)
 NormIdempotent == \A x \in Trees : Norm(Norm(x)) = Norm(x)
 TreeSeq == SetToSeq(Trees)
 IntSeq == SetToSeq(Ints)
+RECURSIVE DigitsOf(_)
+DigitsOf(x) == IF x < 10 THEN <<x>> ELSE DigitsOf(x \div 10) \o <<x % 10>>
 \* maps for the properties round trip (map_to_properties then map_load_properties must give the map back)
 PropKeys == {"k", "a b", "a=b", "a:b", "#c", "!d", "k.1", "中"}
 PropVals == {"v", "", " lead", "trail ", "a=b", "back\\slash", "#x", "中", "x:y"}
@@ -33,6 +35,25 @@ Maps == {<<[key |-> k, val |-> v]>> : k \in PropKeys, v \in PropVals} \cup {<<[k
 MapSeq == SetToSeq(Maps)
 EmitRest == (EMIT /\ t = <<>>) => /\ \A i \in 1..Len(MapSeq) : PrintT(<<"MAP", ToJson([map |-> MapSeq[i]])>>)
                                   /\ TRUE
-EmitRest2 == (EMIT /\ t = <<>>) => /\ PrintT(<<"HEX", ToJson([i \in 1..Len(IntSeq) |-> [n |-> IntSeq[i], hex |-> Hex(IntSeq[i])]])>>)
+\* numbers around 2^53 (where a float stops being exact), 2^63 and the end of the 64-bit range, as decimal digits
+BigDecs == {<<9, 0, 0, 7, 1, 9, 9, 2, 5, 4, 7, 4, 0, 9, 9, 2>>,
+            <<9, 0, 0, 7, 1, 9, 9, 2, 5, 4, 7, 4, 0, 9, 9, 3>>,
+            <<9, 0, 0, 7, 1, 9, 9, 2, 5, 4, 7, 4, 0, 9, 9, 4>>,
+            <<9, 0, 0, 7, 1, 9, 9, 2, 5, 4, 7, 4, 0, 9, 9, 5>>,
+            <<4, 6, 1, 1, 6, 8, 6, 0, 1, 8, 4, 2, 7, 3, 8, 7, 9, 0, 5>>,
+            <<9, 2, 2, 3, 3, 7, 2, 0, 3, 6, 8, 5, 4, 7, 7, 5, 8, 0, 7>>,
+            <<9, 2, 2, 3, 3, 7, 2, 0, 3, 6, 8, 5, 4, 7, 7, 5, 8, 0, 8>>,
+            <<9, 2, 2, 3, 3, 7, 2, 0, 3, 6, 8, 5, 4, 7, 7, 5, 8, 0, 9>>,
+            <<1, 8, 4, 4, 6, 7, 4, 4, 0, 7, 3, 7, 0, 9, 5, 5, 1, 6, 1, 4>>,
+            <<1, 8, 4, 4, 6, 7, 4, 4, 0, 7, 3, 7, 0, 9, 5, 5, 1, 6, 1, 5>>,
+            <<1, 0, 0, 0, 0, 0, 0, 0, 0, 0, 0, 0, 0, 0, 0, 0, 0, 0, 0, 0>>,
+            <<1, 2, 3, 4, 5, 6, 7, 8, 9, 0, 1, 2, 3, 4, 5, 6, 7, 8, 9, 1>>,
+            <<4, 2, 9, 4, 9, 6, 7, 2, 9, 6>>,
+            <<0>>,
+            <<2, 5, 5>>}
+BigSeq == SetToSeq(BigDecs)
+HexDecAgreesWithHex == \A x \in {0, 1, 15, 16, 255, 256, 4095, 65535, 1000000, 2147483647} : HexDec(DigitsOf(x)) = Hex(x)
+EmitRest2 == (EMIT /\ t = <<>>) => /\ PrintT(<<"HEXBIG", ToJson([i \in 1..Len(BigSeq) |-> [n |-> BigSeq[i], hex |-> HexDec(BigSeq[i])]])>>)
+                                  /\ PrintT(<<"HEX", ToJson([i \in 1..Len(IntSeq) |-> [n |-> IntSeq[i], hex |-> Hex(IntSeq[i])]])>>)
                                   /\ \A i \in 1..Len(TreeSeq) : PrintT(<<"JSON", ToJson([tree |-> TreeSeq[i], norm |-> Norm(TreeSeq[i])])>>)
 =============================================================================
